@@ -124,6 +124,9 @@ def oracle(R, graph, case, io_, closures):
                         break
                 if not reason and not unsetup_any:
                     yield ("refusal_has_reason", None, "refused, but no other product depends on anything that would be removed")
+        elif out == "TableError":
+            if not (rec and any(p.get("missing") for p in graph["products"])):
+                yield ("no_error", None, "TableFileNotFound although no collected product lacks its table file")
         elif out == "NotFound":
             if not (rec and (unresolved or unsetup_any)):
                 yield ("no_error", None, "ProductNotFound for a declared target whose dependencies all resolve")
